@@ -51,6 +51,10 @@ def slices(tier):
             ("U4chainx2x3", [(sh, (None, None)) for sh in spaces.chain_shapes(4)[::3]], u3, [core[0]]),   # the two combs
             # every 4-leaf object on 3 species leaves, one family: speciations between lineages that each hold a transfer
             ("U4x3x1", spaces.shape_pairs(4, 3, min_obj=4, min_sp=3), spaces.unordered_syntenies(1), [core[0], core[6]]),
+            # every 4-leaf object on 3 species leaves, each leaf holding ONE of two families, transfers at twice the unit price
+            # and segmental losses at 1 and 2: a duplication whose charged child sits strictly below while the other child
+            # stays in the species of the duplication, with a transfer scenario within one segmental loss of it
+            ("U4x3x{a,b}/hgt2", spaces.shape_pairs(4, 3, min_obj=4, min_sp=3), [("a",), ("b",)], [(0, 2, 2, 1, 2), (0, 1, 2, 1, 1)]),
         ]
     full = core + [c for c in c02.EXTRA_VECTORS if spaces.coherent(c)]
     return [
